@@ -185,11 +185,19 @@ MemberObs(bs, ld, i) ==
         data |-> [k \in 1 .. 4 |-> Norm(TableData(bs, ld.v.kind, p.v, QueryTags[k]))],
         has  |-> [k \in 1 .. 4 |-> HasTable(p.v, QueryTags[k])]]
 
+\* Member indices far beyond every collection: named, because TLC integers are 32-bit (the harness turns the names
+\* into usize values).  numFonts is a uint32 and every member costs four bytes of the file, so each of these indices
+\* is >= numFonts of every file TLC writes: a collection has no such member (Provider: BadIndex), a bare sfnt / WOFF
+\* does not consult the index (Dev_SingleIgnoresIndex).  Whether table_provider(i) succeeds is what is compared.
+FarIdx == <<"2^16", "2^31", "2^32", "2^32+1", "2^62", "2^62+1", "2^63", "2^64-1">>
+FarOk(ld) == [k \in 1 .. Len(FarIdx) |-> ld.v.kind # "ttc"]
+
 Expect(bs) ==
   LET ld == Load(bs) IN
-  IF ~ld.ok THEN [load |-> FALSE, kind |-> "", members |-> <<>>]
+  IF ~ld.ok THEN [load |-> FALSE, kind |-> "", members |-> <<>>, far |-> <<>>]
   ELSE [load |-> TRUE, kind |-> ld.v.kind,
-        members |-> [k \in 1 .. (IF ld.v.kind = "ttc" THEN Len(ld.v.offsets) + 2 ELSE 3) |-> MemberObs(bs, ld, k - 1)]]
+        members |-> [k \in 1 .. (IF ld.v.kind = "ttc" THEN Len(ld.v.offsets) + 2 ELSE 3) |-> MemberObs(bs, ld, k - 1)],
+        far |-> FarOk(ld)]
 
 \* which family of layout / form a case belongs to (for the driver's vacuity counters and messages only)
 Variant(x) ==
